@@ -326,6 +326,7 @@ type Oracle struct {
 	Concretes map[string]string    `json:"concretes"`
 	Guards    map[string]FieldPlan `json:"guards"`
 	ValueForm map[string]bool      `json:"value_form"`
+	Entities  map[string]FieldPlan `json:"entities,omitempty"`
 }
 
 func NewOracle() Oracle {
